@@ -5,7 +5,7 @@
 (* action binds the logged fields and evaluates the property rules of       *)
 (* DESIGN.md Appendix B against the Ref layer.                              *)
 (***************************************************************************)
-EXTENDS TraceBase, Compress, Txt, Values, Store, Mdns
+EXTENDS TraceBase, Compress, Txt, Values, Store, Mdns, Builder
 
 VARIABLES l,         \* index of the next event to consume
           st         \* abstract state carried through a session (store / mDNS events): see Reset
@@ -399,6 +399,16 @@ TraceNetRun ==
           <<"receive loop stopped answering", "responder", Ev.answered, "discovery", Ev.answered_discovery>>)
   /\ Rule(l, "LockClean", Ev.usable # "no", <<"store unusable after hostile traffic">>)
 
+(* ApiTrace (C02, C08): an API history of the builder machine (Builder.tla) was replayed    *)
+(* on a real Packet; e.states[i] is the projection of the real packet after call i       *)
+TraceApi ==
+  /\ Ev.ev = "ApiTrace"
+  /\ LET model == RunOps(Ev.hist) IN
+     /\ Rule(l, "NoPanic", Len(Ev.states) = Len(Ev.hist), <<"api call panicked at", Len(Ev.states)>>)
+     /\ \A i \in 1 .. Len(Ev.states) :
+          Rule(l, "ApiStep", Ev.states[i] = model[i],
+               <<"call", i, Ev.hist[i].op, "field", IF DOMAIN Ev.states[i] = DOMAIN model[i] THEN PktDiff(Ev.states[i], model[i]) ELSE "panic">>)
+
 (* Reparse (C11): bytes e.b accepted by the parser (e.p1), re-serialised plain  *)
 (* (e.b2) and compressed (e.b3), each parsed again (e.p2, e.p3)                 *)
 TraceReparse ==
@@ -505,7 +515,7 @@ Stateless ==
            \/ TraceNameNew \/ TraceLabelNew \/ TraceNameRel
            \/ TraceTxtSplit \/ TraceTxtAttrs \/ TraceTxtRaw \/ TraceTxtLong \/ TraceCStrNew
            \/ TraceDiscover \/ TraceEscape \/ TraceDatagram \/ TraceNetRun
-           \/ TraceValueCmp \/ TraceParse \/ TracePeek \/ TraceInspect \/ TraceSinkBuild \/ TraceRoundTrip \/ TraceReparse
+           \/ TraceApi \/ TraceValueCmp \/ TraceParse \/ TracePeek \/ TraceInspect \/ TraceSinkBuild \/ TraceRoundTrip \/ TraceReparse
            \/ TraceCodeConv \/ TraceMnemonics \/ TraceMatchType \/ TraceMatchClass
 
 Next == /\ l <= Len(Rec)
